@@ -505,6 +505,13 @@ Section Preservation.
     constructor; cbn; auto; try congruence; try discriminate; try contradiction.
   Qed.
 
+  (* the `lost` flag is not part of the invariant *)
+  Lemma cinvp_set_lost s p b : cinvp s p -> cinvp (set_lost s b) p.
+  Proof.
+    intros [[Bm Bi Be Bk Bt Bn Ba Bp] [Cp Cn Cu Cc Ce Cj Cd]].
+    split; constructor; auto.
+  Qed.
+
   (* --- moving to program point x after an event (or none) that saves no chunk ------------------- *)
   Definition waitset (x : pc) : Prop := match x with PWait | PClose | PRen | PEnd | PAbort => True | _ => False end.
 
@@ -791,7 +798,7 @@ Section Preservation.
       + rewrite Hdone. discriminate.
       + discriminate.
       + intros _. right. constructor.
-    - eexists. apply abort_inv; [exact B' | rewrite Hpend; exact Hdone].
+    - eexists. apply cinvp_set_lost. apply abort_inv; [exact B' | rewrite Hpend; exact Hdone].
   Qed.
 
   Lemma main_ren s p : cinvp s p -> c_pc s = PRen -> exists p', cinvp (mstep s) p'.
@@ -816,7 +823,7 @@ Section Preservation.
       + rewrite Hdone. discriminate.
       + discriminate.
       + intros _. right. constructor.
-    - eexists. apply abort_inv; [exact B' | rewrite Hpend; exact Hdone].
+    - eexists. apply cinvp_set_lost. apply abort_inv; [exact B' | rewrite Hpend; exact Hdone].
   Qed.
 
   (* --- waiting for / looking at the pending futures --------------------------------------------- *)
@@ -1197,7 +1204,7 @@ Section Preservation.
     { intros He. destruct (cp_excpc _ _ _ _ _ C He) as [H|H]; [exact H | rewrite Hpc in H; destruct H]. }
     set (rec' := c_rec s ++ [(c_i s, n)]).
     set (s1 := mkCst (PRec n) (c_fs s) (c_todo s) (c_i s) rec' (c_pend s) (c_exc s) (c_kill s) (c_deliv s)
-                 (c_tr s) (c_mon s) (c_nf s)).
+                 (c_tr s) (c_mon s) (c_nf s) (c_lost s)).
     assert (B1 : cbase s1 p) by (destruct B; constructor; cbn; auto).
     (* the flush lists only recorded chunk infos *)
     assert (Hrun : running_ok pc0 p (mkMeta rec' false false) = true).
@@ -1574,9 +1581,9 @@ Section Preservation.
         unfold mu; cbn [set_pc c_pc c_todo c_kill c_pend pcw]; rewrite Hpc; cbn [pcw]; lia.
     - match goal with |- context [do_op pl pc0 s ?o] => destruct (do_op pl pc0 s o) as [s' ok] eqn:Ed end.
       destruct (do_op_shape _ _ _ _ Ed) as (H1 & H2 & H3 & H4).
-      destruct ok; unfold mu; cbn [set_pc c_pc c_todo c_kill c_pend pcw]; rewrite H2, H3, H4, Hpc; cbn [pcw]; lia.
+      destruct ok; unfold mu, close_failed; cbn [set_lost set_pc c_pc c_todo c_kill c_pend pcw]; rewrite H2, H3, H4, Hpc; cbn [pcw]; lia.
     - destruct (do_op pl pc0 s ORenameDir) as [s' ok] eqn:Ed. destruct (do_op_shape _ _ _ _ Ed) as (H1 & H2 & H3 & H4).
-      destruct ok; unfold mu; cbn [set_pc c_pc c_todo c_kill c_pend pcw]; rewrite H2, H3, H4, Hpc; cbn [pcw]; lia.
+      destruct ok; unfold mu, close_failed; cbn [set_lost set_pc c_pc c_todo c_kill c_pend pcw]; rewrite H2, H3, H4, Hpc; cbn [pcw]; lia.
   Qed.
 
   Lemma work_step_mu s j t : nth_error (c_pend s) j = Some t -> t_done t = false -> (mu (wstep s j) < mu s)%nat.
@@ -1931,6 +1938,112 @@ Section Monitor.
 End Monitor.
 
 (* ------------------------------------------------------------------------------------------ *)
+(* a failure of close() is lost only on the threaded processor without `got_exception` recording *)
+(* ------------------------------------------------------------------------------------------ *)
+
+Definition close_reported (cfg : rcfg) : bool :=
+  match r_proc cfg with SingleThread => true | Threaded => r_closerec cfg end.
+
+Section Lost.
+  Variable cfg : rcfg.
+  Variable inp : input.
+  Variable pl : plan.
+  Variable pc0 : pcfg.
+  Hypothesis Hrep : close_reported cfg = true.
+
+  Definition lost_ok (s : cst) : Prop := c_lost s = false.
+
+  Lemma lost_ok_ext s1 s2 : c_lost s2 = c_lost s1 -> lost_ok s1 -> lost_ok s2.
+  Proof. unfold lost_ok. intros ->. auto. Qed.
+
+  Lemma do_op_lost s o s' ok : do_op pl pc0 s o = (s', ok) -> lost_ok s -> lost_ok s'.
+  Proof.
+    unfold do_op. intros Ed H.
+    destruct (pl (c_nf s) (length (c_tr s)) o); [destruct (apply_failed (c_fs s) o e) | destruct (apply_done (c_fs s) o)];
+      inversion Ed; subst; exact H.
+  Qed.
+
+  Lemma close_failed_lost s : lost_ok (close_failed cfg s).
+  Proof.
+    unfold lost_ok, close_failed, close_lost. cbn. unfold close_reported in Hrep.
+    destruct (r_proc cfg); [reflexivity | rewrite Hrep; reflexivity].
+  Qed.
+
+  Lemma handler_lost s : lost_ok s -> lost_ok (handler cfg inp s).
+  Proof.
+    unfold handler. intros H. destruct (c_kill s); [|destruct (r_proc cfg)]; exact H.
+  Qed.
+
+  Ltac lost_do :=
+    match goal with
+    | |- context [do_op pl pc0 ?a ?o] =>
+        let s' := fresh "s'" in let ok := fresh "ok" in let Ed := fresh "Ed" in
+        destruct (do_op pl pc0 a o) as [s' ok] eqn:Ed;
+        let M := fresh "M" in
+        assert (M : lost_ok s') by (eapply do_op_lost; [exact Ed|]; assumption);
+        destruct ok
+    end.
+
+  Lemma main_step_lost s : lost_ok s -> lost_ok (main_step cfg inp pl pc0 s).
+  Proof.
+    intros H. unfold main_step.
+    destruct (c_pc s).
+    - destruct (f_final (c_fs s)); [lost_do|]; assumption.
+    - destruct (f_temp (c_fs s)); [lost_do|]; assumption.
+    - lost_do; assumption.
+    - lost_do; assumption.
+    - destruct (negb (c_kill s) && _).
+      + destruct (do_op pl pc0 s OUpExc) as [s' ok] eqn:Ed. apply handler_lost. eapply do_op_lost; eauto.
+      + destruct (c_todo s) as [|[n v] rest].
+        * destruct (c_kill s); [|destruct (r_proc cfg)]; assumption.
+        * destruct (n =? 0); [|destruct (is_async cfg && negb (c_kill s))]; assumption.
+    - lost_do; [assumption | apply handler_lost; assumption].
+    - lost_do; [assumption | apply handler_lost; assumption].
+    - match goal with |- context [do_op pl pc0 ?a ?o] => destruct (do_op pl pc0 a o) as [s' ok] eqn:Ed end.
+      assert (M : lost_ok s') by (eapply do_op_lost; [exact Ed | exact H]).
+      destruct ok; [exact M | apply handler_lost; exact M].
+    - destruct (r_var cfg); [|destruct (existsb t_failed (c_pend s))];
+        try (apply handler_lost; assumption); assumption.
+    - destruct (forallb t_done (c_pend s)); [|assumption].
+      destruct (r_var cfg); [|destruct (existsb t_failed (c_pend s))]; assumption.
+    - lost_do; [assumption | apply close_failed_lost].
+    - lost_do; [assumption | apply close_failed_lost].
+    - assumption.
+    - assumption.
+  Qed.
+
+  Lemma work_step_lost s j : lost_ok s -> lost_ok (work_step pl pc0 s j).
+  Proof.
+    intros H. unfold work_step. destruct (nth_error (c_pend s) j) as [t|]; [|assumption].
+    destruct (t_st t); try assumption.
+    - destruct (do_op pl pc0 s (OWriteTmp (t_i t) (t_v t))) as [s' ok] eqn:Ed.
+      eapply do_op_lost in Ed; eauto.
+    - destruct (do_op pl pc0 s (ORenameChunk (t_i t))) as [s' ok] eqn:Ed.
+      eapply do_op_lost in Ed; eauto.
+  Qed.
+
+  Lemma run_lost fuel : forall sched s, lost_ok s -> lost_ok (run cfg inp pl pc0 fuel sched s).
+  Proof.
+    induction fuel as [|fuel IH]; intros sched s H; cbn [run]; [assumption|].
+    destruct (terminal s); [assumption|].
+    assert (Hs : forall ch, lost_ok (step cfg inp pl pc0 s ch)).
+    { intros ch. unfold step.
+      assert (Hfb : lost_ok (if main_blocked s
+                             then match first_undone (c_pend s) 0 with
+                                  | Some j => work_step pl pc0 s j
+                                  | None => main_step cfg inp pl pc0 s
+                                  end
+                             else main_step cfg inp pl pc0 s)).
+      { destruct (main_blocked s); [|apply main_step_lost; assumption].
+        destruct (first_undone (c_pend s) 0); [apply work_step_lost | apply main_step_lost]; assumption. }
+      destruct ch as [j|]; [|exact Hfb].
+      destruct (nth_error (c_pend s) j) as [t|]; [|exact Hfb].
+      destruct (t_done t); [exact Hfb | apply work_step_lost; assumption]. }
+    destruct sched; apply IH; apply Hs.
+  Qed.
+End Lost.
+
+(* ------------------------------------------------------------------------------------------ *)
 (* the theorems about one `Context.make` request                                              *)
 (* ------------------------------------------------------------------------------------------ *)
 
@@ -1975,7 +2088,10 @@ Section Request.
 
   Lemma request_runs :
     request cfg inp pl sched f0 =
-    mkResult (match c_pc sfin with PEnd => if c_exc sfin then Err E_SAVE else Ok tt | _ => Err E_SAVE end)
+    mkResult (match c_pc sfin with
+              | PEnd => if c_exc sfin then Err E_SAVE else Ok tt
+              | _ => if c_lost sfin then Ok tt else Err E_SAVE
+              end)
       (c_fs sfin) (rev (c_tr sfin)) (match c_mon sfin with Some _ => true | None => false end) (terminal sfin).
   Proof. unfold request. rewrite Hstored, Hnever. reflexivity. Qed.
 
@@ -1996,7 +2112,8 @@ Section Request.
     exists p, c_mon sfin = Some p /\ prun pc0 pst_init (rev (c_tr sfin)) = Some p /\
       fs_ok ex (c_fs sfin) /\
       (p_failed p = true -> c_pc sfin = PAbort \/ c_exc sfin = true) /\
-      (c_pc sfin = PEnd -> c_exc sfin = false -> visible (c_fs sfin) = true).
+      (c_pc sfin = PEnd -> c_exc sfin = false -> visible (c_fs sfin) = true) /\
+      (close_reported cfg = true -> c_lost sfin = false).
   Proof.
     intros Hmode.
     assert (Hpc0 : p_expected pc0 = expected_of inp) by reflexivity.
@@ -2009,7 +2126,8 @@ Section Request.
     exists p. split; [exact Hm|]. split.
     - pose proof (run_mon cfg inp pl pc0 (fuel_for inp) sched _ mon_ok0) as M. fold sfin in M.
       unfold mon_ok in M. rewrite <- M. exact Hm.
-    - auto.
+    - split; [exact Hfs|]. split; [exact Hf|]. split; [exact Hv|].
+      intros Hrep. apply (run_lost cfg inp pl pc0 Hrep (fuel_for inp) sched (init_cst inp f0)). reflexivity.
   Qed.
 End Request.
 
@@ -2024,23 +2142,25 @@ Theorem request_safe cfg inp pl sched f0 :
   res_fin r = true /\
   accepts (pcfg_of cfg inp f0) (res_tr r) = true /\
   fs_ok (expected_of inp) (res_fs r) /\
-  (existsb ev_fail (res_tr r) = true -> is_err (res_out r)) /\
-  (res_out r = Ok tt -> visible (res_fs r) = true /\ loads_correct (expected_of inp) (res_fs r)).
+  (close_reported cfg = true ->
+   (existsb ev_fail (res_tr r) = true -> is_err (res_out r)) /\
+   (res_out r = Ok tt -> visible (res_fs r) = true /\ loads_correct (expected_of inp) (res_fs r))).
 Proof.
   intros Hch Hok Hmode. cbn zeta.
   destruct (is_stored f0) as [[|]|e] eqn:Es.
   - (* already stored *)
     unfold request. rewrite Es. cbn.
-    split; [reflexivity|]. split; [reflexivity|]. split; [exact Hok|]. split; [discriminate|].
+    split; [reflexivity|]. split; [reflexivity|]. split; [exact Hok|]. intros _. split; [discriminate|].
     intros _. split; [apply is_stored_true_visible; exact Es | apply (proj2 Hok); apply is_stored_true_visible; exact Es].
   - destruct (match f_final f0 with Some _ => r_never cfg | None => false end) eqn:En.
     + (* DataExistsError *)
       unfold request. rewrite Es, En. cbn.
-      split; [reflexivity|]. split; [reflexivity|]. split; [exact Hok|]. split; discriminate.
+      split; [reflexivity|]. split; [reflexivity|]. split; [exact Hok|]. intros _. split; discriminate.
     + rewrite (request_runs cfg inp pl sched f0 Es En). cbn [res_fin res_tr res_fs res_out].
-      destruct (sfin_facts cfg inp pl sched f0 Hch Hok Es En Hmode) as (T & p & Hm & Hp & Hfs & Hf & Hv).
+      destruct (sfin_facts cfg inp pl sched f0 Hch Hok Es En Hmode) as (T & p & Hm & Hp & Hfs & Hf & Hv & Hl).
       set (s := run cfg inp pl (pcfg_of cfg inp f0) (fuel_for inp) sched (init_cst inp f0)) in *.
-      split; [exact T|]. split; [unfold accepts; rewrite Hp; reflexivity|]. split; [exact Hfs|]. split.
+      split; [exact T|]. split; [unfold accepts; rewrite Hp; reflexivity|]. split; [exact Hfs|].
+      intros Hrep. rewrite (Hl Hrep). split.
       * intros Hfail. pose proof (prun_failed _ _ _ _ Hp) as Hpf. change (p_failed pst_init) with false in Hpf.
         cbn [orb] in Hpf. rewrite Hfail in Hpf.
         destruct (Hf Hpf) as [Ha|He]; [rewrite Ha; eexists; reflexivity|].
@@ -2064,29 +2184,30 @@ Theorem retry_converges_one cfg inp sched f0 :
 Proof.
   intros Hch Hup Hnev Hok. cbn zeta.
   assert (Hmode : safe_mode cfg no_faults) by (right; right; exact no_faults_faultless).
-  destruct (request_safe cfg inp no_faults sched f0 Hch Hok Hmode) as (T & Hacc & Hfs & Hfail & Hout).
-  cbn zeta in *.
-  assert (Hres : res_out (request cfg inp no_faults sched f0) = Ok tt).
-  { destruct (is_stored f0) as [[|]|e] eqn:Es.
-    - unfold request. rewrite Es. reflexivity.
-    - assert (En : match f_final f0 with Some _ => r_never cfg | None => false end = false)
-        by (destruct (f_final f0); auto).
-      rewrite (request_runs cfg inp no_faults sched f0 Es En). cbn [res_out].
-      assert (Hpc0 : p_expected (pcfg_of cfg inp f0) = expected_of inp) by reflexivity.
-      pose proof (expected_of_nil inp Hch) as Hex.
-      assert (I0 : cinv cfg inp (pcfg_of cfg inp f0) (init_cst inp f0))
-        by (apply init_cinv; [exact Hok | apply (allow_rm0 cfg inp f0 Es En)]).
-      assert (N0 : nofail (init_cst inp f0)).
-      { repeat split; cbn; auto; try discriminate. intros p Hp. inversion Hp; reflexivity. }
-      pose proof (run_nf cfg inp no_faults (pcfg_of cfg inp f0) Hpc0 Hex Hmode eq_refl Hup
-                    (fuel_for inp) sched _ I0 N0) as (Hexc & Hna & _).
-      rewrite (request_runs cfg inp no_faults sched f0 Es En) in T. cbn [res_fin] in T.
-      unfold terminal in T.
-      destruct (c_pc (run cfg inp no_faults (pcfg_of cfg inp f0) (fuel_for inp) sched (init_cst inp f0)));
-        try discriminate; [|contradiction].
-      rewrite Hexc. reflexivity.
-    - destruct (is_stored_ok f0 (proj1 Hok)) as [b Hb]. congruence. }
-  split; [exact Hres|]. destruct (Hout Hres) as [V L]. auto.
+  destruct (is_stored f0) as [[|]|e] eqn:Es.
+  - (* already stored: nothing to do *)
+    unfold request. rewrite Es. cbn.
+    split; [reflexivity|]. split; [apply is_stored_true_visible; exact Es|].
+    split; [apply (proj2 Hok); apply is_stored_true_visible; exact Es | reflexivity].
+  - assert (En : match f_final f0 with Some _ => r_never cfg | None => false end = false)
+      by (destruct (f_final f0); auto).
+    rewrite (request_runs cfg inp no_faults sched f0 Es En). cbn [res_out res_fs res_tr].
+    destruct (sfin_facts cfg inp no_faults sched f0 Hch Hok Es En Hmode) as (T & p & Hm & Hp & Hfs & Hf & Hv & _).
+    assert (Hpc0 : p_expected (pcfg_of cfg inp f0) = expected_of inp) by reflexivity.
+    pose proof (expected_of_nil inp Hch) as Hex.
+    assert (I0 : cinv cfg inp (pcfg_of cfg inp f0) (init_cst inp f0))
+      by (apply init_cinv; [exact Hok | apply (allow_rm0 cfg inp f0 Es En)]).
+    assert (N0 : nofail (init_cst inp f0)).
+    { repeat split; cbn; auto; try discriminate. intros q Hq. inversion Hq; reflexivity. }
+    pose proof (run_nf cfg inp no_faults (pcfg_of cfg inp f0) Hpc0 Hex Hmode eq_refl Hup
+                  (fuel_for inp) sched _ I0 N0) as (Hexc & Hna & _).
+    set (s := run cfg inp no_faults (pcfg_of cfg inp f0) (fuel_for inp) sched (init_cst inp f0)) in *.
+    unfold terminal in T.
+    destruct (c_pc s) eqn:Hpc; try discriminate; [|contradiction].
+    rewrite Hexc. pose proof (Hv eq_refl Hexc) as V.
+    split; [reflexivity|]. split; [exact V|]. split; [apply (proj2 Hfs V)|].
+    unfold accepts. rewrite Hp. reflexivity.
+  - destruct (is_stored_ok f0 (proj1 Hok)) as [b Hb]. congruence.
 Qed.
 
 (* ------------------------------------------------------------------------------------------ *)
@@ -2151,26 +2272,32 @@ Definition not_swallowed (cfg : rcfg) (pl : plan) : Prop :=
     accepts (pcfg_of cfg inp f0) (res_tr r) = true /\
     (visible (res_fs r) = true -> loads_correct (expected_of inp) (res_fs r)).
 
-Theorem not_swallowed_safe cfg pl : safe_mode cfg pl -> not_swallowed cfg pl.
+Theorem not_swallowed_safe cfg pl : safe_mode cfg pl -> close_reported cfg = true -> not_swallowed cfg pl.
 Proof.
-  intros Hmode inp sched f0 Hch Hok. cbn zeta. intros Hfail.
-  destruct (request_safe cfg inp pl sched f0 Hch Hok Hmode) as (_ & Hacc & Hfs & Herr & _).
+  intros Hmode Hrep inp sched f0 Hch Hok. cbn zeta. intros Hfail.
+  destruct (request_safe cfg inp pl sched f0 Hch Hok Hmode) as (_ & Hacc & Hfs & Hout).
+  destruct (Hout Hrep) as [Herr _].
   split; [apply Herr; exact Hfail|]. split; [exact Hacc | apply (proj2 Hfs)].
 Qed.
 
-Theorem not_swallowed_fixed proc pool never pl : not_swallowed (mkRcfg Fixed proc pool never) pl.
-Proof. apply not_swallowed_safe. left. reflexivity. Qed.
+(* save_from with inspected futures and a close failure recorded in got_exception (or the single-thread
+   processor): nothing is swallowed, whatever fails *)
+Theorem not_swallowed_fixed proc pool never closerec pl :
+  close_reported (mkRcfg Fixed proc pool never closerec) = true ->
+  not_swallowed (mkRcfg Fixed proc pool never closerec) pl.
+Proof. intros H. apply not_swallowed_safe; [left; reflexivity | exact H]. Qed.
 
 (* the pinned save_from: true as long as no pooled write fails (or there is no pool) ... *)
-Theorem not_swallowed_pinned_partial proc pool never pl :
-  (is_async (mkRcfg Pinned proc pool never) = false \/ worker_faultless pl) ->
-  not_swallowed (mkRcfg Pinned proc pool never) pl.
-Proof. intros H. apply not_swallowed_safe. right. exact H. Qed.
+Theorem not_swallowed_pinned_partial proc pool never closerec pl :
+  close_reported (mkRcfg Pinned proc pool never closerec) = true ->
+  (is_async (mkRcfg Pinned proc pool never closerec) = false \/ worker_faultless pl) ->
+  not_swallowed (mkRcfg Pinned proc pool never closerec) pl.
+Proof. intros Hrep H. apply not_swallowed_safe; [right; exact H | exact Hrep]. Qed.
 
 (* ... and false otherwise: thread-pool saving, two chunks, the write of chunk 1 raises on its worker thread.
    Context.make returns normally, `writing_ended` is written without `exception`, the key is visible, loading
    fails with FileNotFoundError (D3). *)
-Definition d3_cfg : rcfg := mkRcfg Pinned Threaded true false.
+Definition d3_cfg : rcfg := mkRcfg Pinned Threaded true false true.
 Definition d3_inp : input := mkInput [(2, 100); (2, 101)] None [].
 Definition d3_plan : plan := single_fault (OWriteTmp 1 101) ENone.
 
@@ -2196,9 +2323,42 @@ Proof.
   destruct (H inp sched f0 Hch Hok Hfail) as ([e He] & _). congruence.
 Qed.
 
+(* The second defect (close_lost): with the threaded processor, when close() itself fails -- here the final
+   os.rename(<key>_temp, <key>) -- after save_from's try block completed, the exception dies with the saver's
+   mailbox thread unless save_from records it in got_exception: Context.make returns normally, nothing is stored. *)
+Definition lost_cfg : rcfg := mkRcfg Fixed Threaded false false false.
+Definition lost_plan : plan := single_fault ORenameDir ENone.
+
+Theorem close_failure_lost_refuted :
+  exists inp sched f0,
+    in_chunks inp <> [] /\ fs_ok (expected_of inp) f0 /\
+    let r := request lost_cfg inp lost_plan sched f0 in
+    existsb ev_fail (res_tr r) = true /\
+    res_out r = Ok tt /\
+    accepts (pcfg_of lost_cfg inp f0) (res_tr r) = true /\
+    visible (res_fs r) = false /\ f_temp (res_fs r) <> None.
+Proof.
+  exists (mkInput [(2, 100)] None []), [], fs_empty.
+  split; [discriminate|]. split; [apply fs_ok_no_final; reflexivity|].
+  vm_compute. repeat split; try reflexivity. discriminate.
+Qed.
+
+Corollary close_failure_lost_false : ~ not_swallowed lost_cfg lost_plan.
+Proof.
+  intros H. destruct close_failure_lost_refuted as (inp & sched & f0 & Hch & Hok & Hr).
+  cbn zeta in Hr. destruct Hr as (Hfail & Hout & _).
+  destruct (H inp sched f0 Hch Hok Hfail) as ([e He] & _). congruence.
+Qed.
+
+(* with the failure recorded in got_exception the same run ends with an error for the caller *)
+Example lost_fixed :
+  let r := request (mkRcfg Fixed Threaded false false true) (mkInput [(2, 100)] None []) lost_plan [] fs_empty in
+  res_out r = Err E_SAVE /\ visible (res_fs r) = false.
+Proof. vm_compute. split; reflexivity. Qed.
+
 (* the same failure with the futures inspected: an error for the caller, `exception` recorded, invisible *)
 Example d3_fixed :
-  let r := request (mkRcfg Fixed Threaded true false) d3_inp d3_plan [] fs_empty in
+  let r := request (mkRcfg Fixed Threaded true false true) d3_inp d3_plan [] fs_empty in
   res_out r = Err E_SAVE /\ res_acc r = true /\ visible (res_fs r) = false /\
   match f_final (res_fs r) with
   | Some d => dlookup d FMeta = Some (CMeta (Some (mkMeta [(0, 2); (1, 2)] true true)))
@@ -2208,7 +2368,7 @@ Proof. vm_compute. repeat split; reflexivity. Qed.
 
 (* the hypotheses of the theorems are satisfiable / the runs are not trivial *)
 Example ex_serial_fault_then_retry :
-  let cfg := mkRcfg Pinned SingleThread false false in
+  let cfg := mkRcfg Pinned SingleThread false false false in
   let chunks := [(2, 100); (0, 0); (3, 102)] in
   (* the rename of chunk 2 fails; SaverSpy.close (kill) still flushes a remainder chunk; then a retry *)
   let a : attempt := (None, [(1, 103)], single_fault (ORenameChunk 2) ENone, []) in
@@ -2220,7 +2380,7 @@ Example ex_serial_fault_then_retry :
 Proof. vm_compute. repeat split; try reflexivity. discriminate. Qed.
 
 Example ex_async_interleaved :
-  let cfg := mkRcfg Fixed Threaded true false in
+  let cfg := mkRcfg Fixed Threaded true false true in
   let r := request cfg (mkInput [(2, 100); (2, 101); (1, 102)] None []) no_faults
              [None; None; None; None; None; None; Some 0%nat; None; Some 1%nat; Some 0%nat; None; None; Some 1%nat] fs_empty in
   res_out r = Ok tt /\ res_acc r = true /\ load (res_fs r) = Ok [Some 100; Some 101; Some 102].
